@@ -321,13 +321,15 @@ fn show_request(req: &http::Request<()>) -> String {
     )
 }
 
-async fn trailers_of<S: h3::quic::RecvStream, B: bytes::Buf>(
-    s: &mut h3::connection::RequestStream<S, B>,
-) -> Result<Option<HeaderMap>, h3::error::StreamError> {
-    poll_fn(|cx| s.poll_recv_trailers(cx)).await
-}
-
 async fn srv_accept(w: &Shared, cancel: &Rc<Cell<bool>>, first: &[u8], second: Option<&[u8]>)
+    -> Result<(h3::server::Connection<SimConn, Bytes>, http::Request<()>, SrvStream), String> {
+    let mut bytes = frame(1, first);
+    if let Some(t) = second {
+        bytes.extend(frame(1, t));
+    }
+    srv_accept_raw(w, cancel, &bytes, true).await
+}
+async fn srv_accept_raw(w: &Shared, cancel: &Rc<Cell<bool>>, bytes: &[u8], fin: bool)
     -> Result<(h3::server::Connection<SimConn, Bytes>, http::Request<()>, SrvStream), String> {
     let mut b = h3::server::builder();
     b.send_grease(false);
@@ -336,11 +338,10 @@ async fn srv_accept(w: &Shared, cancel: &Rc<Cell<bool>>, first: &[u8], second: O
         _ => return Err("build-err".into()),
     };
     ev(w, "B0".into());
-    chunk_ev(w, 0, &frame(1, first));
-    if let Some(t) = second {
-        chunk_ev(w, 0, &frame(1, t));
+    chunk_ev(w, 0, bytes);
+    if fin {
+        ev(w, "0:F".into());
     }
-    ev(w, "0:F".into());
     match cancellable(conn.accept(), cancel).await {
         Some(Ok(Some(resolver))) => match cancellable(resolver.resolve_request(), cancel).await {
             Some(Ok((req, s))) => Ok((conn, req, s)),
@@ -389,6 +390,90 @@ async fn e2e_trl_srv(w: Shared, section: Vec<u8>, cancel: Rc<Cell<bool>>) -> Str
         Err(r) => format!("setup-{}", r),
     }
 }
+/// one poll of a future, keeping it alive
+async fn poll_now<F: Future + Unpin>(f: &mut F) -> Poll<F::Output> {
+    poll_fn(|cx| Poll::Ready(Pin::new(&mut *f).poll(cx))).await
+}
+fn show_trailers(r: Option<Result<Option<HeaderMap>, h3::error::StreamError>>, w: &Shared, id: u64) -> String {
+    match r {
+        Some(Ok(Some(m))) => format!("ok h={}", show_map(&m)),
+        Some(Ok(None)) => "none".to_string(),
+        Some(Err(e)) => refusal(&e, w, id),
+        None => "hang".into(),
+    }
+}
+/// e2e.trlx: the arms of poll_recv_trailers that recv_data-then-recv_trailers never takes.
+/// direct: recv_trailers without any recv_data (the HEADERS frame is read by poll_recv_trailers itself);
+/// split:  the trailers frame is complete but FIN arrives only after a first poll (Pending: the block is stashed again);
+/// split2: only the first half of the trailers frame is there at the first poll, the rest and FIN come afterwards
+async fn trlx_srv(w: Shared, mode: String, section: Vec<u8>, cancel: Rc<Cell<bool>>) -> String {
+    let tf = frame(1, &section);
+    let cut = if mode == "split2" { tf.len() / 2 } else { tf.len() };
+    let mut bytes = frame(1, &unhex(MIN_REQUEST));
+    bytes.extend_from_slice(&tf[..cut]);
+    let fin_first = mode == "direct";
+    match srv_accept_raw(&w, &cancel, &bytes, fin_first).await {
+        Ok((conn, _req, mut s)) => {
+            let r = {
+                let mut fut = Box::pin(s.recv_trailers());
+                let first = if fin_first { Poll::Pending } else { poll_now(&mut fut).await };
+                match first {
+                    Poll::Ready(x) => format!("early-{}", show_trailers(Some(x), &w, 0)),
+                    Poll::Pending => {
+                        if !fin_first {
+                            chunk_ev(&w, 0, &tf[cut..]);
+                            ev(&w, "0:F".into());
+                        }
+                        show_trailers(cancellable(fut, &cancel).await, &w, 0)
+                    }
+                }
+            };
+            std::mem::forget(s);
+            std::mem::forget(conn);
+            r
+        }
+        Err(r) => format!("setup-{}", r),
+    }
+}
+async fn trlx_cli(w: Shared, mode: String, section: Vec<u8>, cancel: Rc<Cell<bool>>) -> String {
+    let (conn, sr, mut s) = match cli_request(&w, &cancel, min_get()).await {
+        Ok(x) => x,
+        Err(r) => return format!("setup-{}", r),
+    };
+    let _ = cancellable(s.finish(), &cancel).await;
+    let id = s.id().into_inner();
+    let tf = frame(1, &section);
+    let cut = if mode == "split2" { tf.len() / 2 } else { tf.len() };
+    let fin_first = mode == "direct";
+    chunk_ev(&w, id, &frame(1, &unhex(MIN_RESPONSE)));
+    chunk_ev(&w, id, &tf[..cut]);
+    if fin_first {
+        ev(&w, format!("{}:F", id));
+    }
+    let r = match cancellable(s.recv_response(), &cancel).await {
+        Some(Ok(_)) => {
+            let mut fut = Box::pin(s.recv_trailers());
+            let first = if fin_first { Poll::Pending } else { poll_now(&mut fut).await };
+            match first {
+                Poll::Ready(x) => format!("early-{}", show_trailers(Some(x), &w, id)),
+                Poll::Pending => {
+                    if !fin_first {
+                        chunk_ev(&w, id, &tf[cut..]);
+                        ev(&w, format!("{}:F", id));
+                    }
+                    show_trailers(cancellable(fut, &cancel).await, &w, id)
+                }
+            }
+        }
+        Some(Err(e)) => format!("setup-{}", refusal(&e, &w, id)),
+        None => "hang".into(),
+    };
+    std::mem::forget(s);
+    std::mem::forget(conn);
+    std::mem::forget(sr);
+    r
+}
+
 async fn cli_request(w: &Shared, cancel: &Rc<Cell<bool>>, req: http::Request<()>)
     -> Result<(h3::client::Connection<SimConn, Bytes>, h3::client::SendRequest<SimOpener, Bytes>, CliStream), String> {
     let mut b = h3::client::builder();
@@ -615,6 +700,15 @@ fn main() {
         }
         ["e2e.req", f] => e2e("req", parse_fields(f)),
         ["e2e.resp", f] => e2e("resp", parse_fields(f)),
+        ["e2e.trlx", role, mode, f] => {
+            let sec = section_of(&parse_fields(f));
+            let mode = mode.to_string();
+            if *role == "srv" {
+                drive(move |w, c| trlx_srv(w, mode, sec, c), Side::Server)
+            } else {
+                drive(move |w, c| trlx_cli(w, mode, sec, c), Side::Client)
+            }
+        }
         ["e2e.trl", role, f] => e2e(if *role == "srv" { "trl.srv" } else { "trl.cli" }, parse_fields(f)),
         // e2e.many <req|resp|trl.srv|trl.cli> <count> <field> <prefix fields>
         ["e2e.many", kind, count, field, prefix] => {
